@@ -205,16 +205,16 @@ def unwrap(v):
 
 
 class ConcatenateEval(LibModel):
-    """symbolic.Concatenate._evaluate__ (C17): when not already bound, exactly one row, whose value under the node's id is
-    the list of all elements of the child's values over all child rows, in stream order and inner order, with
-    multiplicity (a non-iterable value counts as one element).
+    """symbolic.Concatenate._evaluate__ (C17): when not already bound, exactly one row; it is the incoming binding, unchanged,
+    plus one entry under the node's own id whose value is the list of all elements of the child's values over all child
+    rows, in stream order and inner order, with multiplicity (a non-iterable value counts as one element; the empty list
+    when the child delivers no row).  Nothing else is bound: the variables the child ranged over have no single value.
     Spec function: CAT(0) = [], CAT(i+1) = CAT(i) ++ unwrap(row_val(i)); loop invariant acc == CAT(i)."""
     qual = 'symbolic:Concatenate._evaluate__'
     cls = 'Concatenate'
     props = ('C17',)
     modes = ('sound',)
-    trusted = ("list.extend appends the elements of an iterable in iteration order (A6); the per-variable lists kept under "
-               "other ids are not interpreted",)
+    trusted = ("list.extend appends the elements of an iterable in iteration order (A6)",)
 
     def modenv(self):
         env = base_modenv()
@@ -234,68 +234,63 @@ class ConcatenateEval(LibModel):
             if case == 'none':
                 st.locals['sources'] = NONE
                 st.ghost['sigma0'] = Z.ZMap.empty()
+                st.ghost['sigma_ref'] = None
             else:
                 sig = Z.ZMap.fresh('sigma')
-                st.locals['sources'] = eng.new_dict(st, sig)
+                d = eng.new_dict(st, sig)
+                st.locals['sources'] = d
                 st.ghost['sigma0'] = sig
+                st.ghost['sigma_ref'] = d.ref
             st.ghost['acc'] = None
+            st.ghost['acc_ref'] = None
             st.ghost['yields'] = 0
             sts.append(st)
         return sts
 
-    def getattr(self, eng, st, recv, name):
-        if isinstance(recv, Obj) and recv.kind == 'listdict':
-            return [(st, Meth(recv, name))]
-        if isinstance(recv, Obj) and recv.kind == 'acclist':
-            return [(st, Meth(recv, name))]
-        return super().getattr(eng, st, recv, name)
+    # ---- the result list: a Python list that starts empty and is only ever extended
+    def acc_of(self, st, recv):
+        if not isinstance(recv, Lst):
+            return False
+        if st.ghost['acc_ref'] is None and not recv.items:
+            st.ghost['acc_ref'] = recv.ref
+            st.ghost['acc'] = z3.Empty(ValSeq)
+        return st.ghost['acc_ref'] == recv.ref
 
-    def f_defaultdict(self, eng, st, args, kwargs, node):
-        st = st.clone()
-        st.ghost['acc'] = z3.Empty(ValSeq)
-        st.ghost['own_key'] = z3.BoolVal(False)      # does the dict of lists have an entry under the node's own id?
-        return [(st, Obj('listdict'))]
-
-    def subscript(self, eng, st, recv, k):
-        if isinstance(recv, Obj) and recv.kind == 'listdict':
-            ki = eng.as_int(k)
-            # reading a key of a defaultdict(list) creates it
-            st = st.clone()
-            st.ghost['own_key'] = z3.Or(st.ghost['own_key'], ki == Z.nid(self.n))
-            return [(st, Obj('acclist', {'key': ki}))]
-        return None
-
-    def setitem(self, eng, st, recv, k, v):
-        if isinstance(recv, Obj) and recv.kind == 'listdict' and isinstance(v, Lst) and not v.items:
-            # all_values[key] = []  (an explicit empty entry)
-            st = st.clone()
-            st.ghost['own_key'] = z3.Or(st.ghost['own_key'], eng.as_int(k) == Z.nid(self.n))
-            return [st]
-        return None
-
-    def obj_acclist_extend(self, eng, st, recv, args, kwargs, node):
+    def list_extend(self, eng, st, recv, args, kwargs, node):
         (o,) = args
         st = st.clone()
-        is_self = recv.data['key'] == Z.nid(self.n)
+        if not self.acc_of(st, recv):
+            raise OutOfSubset("extend of another list", node)
         if isinstance(o, ZV) and o.ty == 'val':
             add = seq_of(o.t)
         elif isinstance(o, Lst) and all(isinstance(x, ZV) and x.ty == 'val' for x in o.items):
             add = z3.Concat(*[z3.Unit(x.t) for x in o.items]) if len(o.items) > 1 else (z3.Unit(o.items[0].t) if o.items else z3.Empty(ValSeq))
         else:
             raise OutOfSubset("extend argument", node)
-        st.ghost['acc'] = z3.If(is_self, z3.Concat(st.ghost['acc'], add), st.ghost['acc'])
+        st.ghost['acc'] = z3.Concat(st.ghost['acc'], add)
         return [(st, NONE)]
 
-    def obj_acclist_append(self, eng, st, recv, args, kwargs, node):
-        (o,) = args
+    def list_append(self, eng, st, recv, args, kwargs, node):
         st = st.clone()
-        is_self = recv.data['key'] == Z.nid(self.n)
-        # an append under the node's own id would put a wrapped value into the result list
-        eng.oblige(st, "C17/acc/only-extend-writes-the-result-list", z3.Not(is_self), line=node.lineno)
-        return [(st, NONE)]
+        if self.acc_of(st, recv):
+            # an append would put ONE (possibly wrapped, possibly iterable) object into the result list
+            eng.oblige(st, "C17/acc/only-extend-writes-the-result-list", z3.BoolVal(False), line=node.lineno)
+            return [(st, NONE)]
+        raise OutOfSubset("append to another list", node)
+
+    def new_HashedValue(self, eng, st, args, kwargs, node):
+        val = kwargs.get('value', args[0] if args else None)
+        if isinstance(val, Lst):
+            st = st.clone()
+            if not self.acc_of(st, val):
+                raise OutOfSubset("HashedValue of another list", node)
+            v = listval(st.ghost['acc'])
+            return [(st, ZV(Z.mkhv(v, Z.objid(v)), 'hv'))]
+        return super().new_HashedValue(eng, st, args, kwargs, node)
 
     def node__evaluate__(self, eng, st, recv, args, kwargs, node):
-        return [(st, Obj('childstream', {'node': recv.t}))]
+        srcs = args[0] if args else kwargs.get('sources', NONE)
+        return [(st, Obj('childstream', {'node': recv.t, 'sigma': srcs}))]
 
     def f_is_iterable(self, eng, st, args, kwargs, node):
         (o,) = args
@@ -306,6 +301,14 @@ class ConcatenateEval(LibModel):
     def abstract_loop(self, eng, st, s, it, ordinal):
         c = Z.f_child(self.n)
         if isinstance(it, Obj) and it.kind == 'childstream':
+            st = st.clone()
+            if st.ghost['acc'] is None:
+                # the result list has to exist before the loop (it is the empty list when the child delivers no row): the
+                # one empty Python list among the locals
+                empties = [v for v in st.locals.values() if isinstance(v, Lst) and not v.items]
+                if len(empties) != 1:
+                    raise OutOfSubset("no (single) empty result list before the loop over the child's rows", s)
+                self.acc_of(st, empties[0])
             # arbitrary iteration i: invariant acc == CAT(i); the row binds the child's id (R5) to a value row_val(i)
             i = z3.FreshConst(Z.I, 'i')
             h = st.clone()
@@ -317,13 +320,18 @@ class ConcatenateEval(LibModel):
             m = b.dicts[row.ref]
             b.assume(m.contains(Z.nid(c)), Z.hv_value(m.get(Z.nid(c))) == row_val(i), z3.Not(m.contains(Z.nid(self.n))))
             outs = []
-            iteration_exits = []
             for b2 in eng.assign(s.target, row, b):
                 for o in eng.exec_block(s.body, b2):
                     if o.sig in (NEXT, CONTINUE):
-                        iteration_exits.append(o)
                         eng.oblige(o.st, "C17/acc/invariant-preserved", o.st.ghost['acc'] == CAT(i + 1),
                                    hyp=[CAT(i + 1) == z3.Concat(CAT(i), unwrap(row_val(i)))], line=s.lineno)
+                        # the incoming binding is not written to while the child's rows are consumed
+                        if st.ghost['sigma_ref'] is not None:
+                            eng.oblige(o.st, "C17/frame/the-incoming-binding-is-not-modified",
+                                       o.st.dicts[st.ghost['sigma_ref']].equals(st.dicts[st.ghost['sigma_ref']])
+                                       if hasattr(o.st.dicts[st.ghost['sigma_ref']], 'equals') else
+                                       z3.And(o.st.dicts[st.ghost['sigma_ref']].extends(st.dicts[st.ghost['sigma_ref']]),
+                                              st.dicts[st.ghost['sigma_ref']].extends(o.st.dicts[st.ghost['sigma_ref']])), line=s.lineno)
                     elif o.sig == BREAK:
                         eng.oblige(o.st, "C17/acc/no-early-exit", z3.BoolVal(False))
                     else:
@@ -332,72 +340,40 @@ class ConcatenateEval(LibModel):
             n_rows = z3.Const('n_rows', Z.I)
             e.assume(n_rows >= 0)
             e.ghost['acc'] = CAT(n_rows)
-            # the own entry exists if it existed before the loop or some iteration created it (every row binds the child:
-            # whether an iteration creates it was recorded on the iteration's exits)
-            created = [o_.st.ghost['own_key'] for o_ in iteration_exits]
-            e.ghost['own_key'] = z3.Or(st.ghost['own_key'], z3.And(n_rows > 0, z3.And(*created) if created else z3.BoolVal(False)))
             e.ghost['after_loop'] = True
             outs.append(Outcome(e))
             return outs
-        if isinstance(it, Obj) and it.kind == 'dictitems':
-            # for id_, val in d.items(): every key exactly once.  Two symbolic executions of the body: the child's id, and any
-            # other id; the loop's effect on the accumulator is the first one's (the key is present).
-            m = st.dicts[it.data['ref']]
-            outs = []
-            acc0 = st.ghost['acc']
-            res_acc = None
-            for which in ('child', 'other'):
-                b = st.clone()
-                if which == 'child':
-                    k = Z.nid(c)
-                    if not eng.feasible(b, m.contains(k)):
-                        continue
-                    b.assume(m.contains(k))
-                else:
-                    k = z3.FreshConst(Z.I, 'otherkey')
-                    b.assume(k != Z.nid(c), m.contains(k))
-                for b2 in eng.assign(s.target, Tup([ZV(k, 'int'), ZV(m.get(k), 'hv')]), b):
-                    for o in eng.exec_block(s.body, b2):
-                        if o.sig in (NEXT, CONTINUE):
-                            if which == 'child':
-                                res_acc = o.st.ghost['acc'] if res_acc is None else res_acc
-                                o.st.ghost['_child_done'] = True
-                                outs.append(('child', o.st))
-                            else:
-                                eng.oblige(o.st, "C17/acc/other-variables-do-not-touch-the-result-list", o.st.ghost['acc'] == acc0, line=s.lineno)
-                        else:
-                            outs.append(('exit', o))
-            final = []
-            for kind, x in outs:
-                if kind == 'child':
-                    final.append(Outcome(x))
-                else:
-                    final.append(x)
-            if not any(kind == 'child' for kind, _ in outs):
-                final.append(Outcome(st))
-            return final
         return super().abstract_loop(eng, st, s, it, ordinal)
-
-    def dictcomp(self, eng, st, e):
-        # {k: HashedValue(v) for k, v in all_values.items()}: the result row; only the node's own entry is interpreted
-        st = st.clone()
-        return [(st, Obj('resultrow', {'own': listval(st.ghost['acc'])}))]
 
     def on_yield(self, eng, st, v, ordinal, node):
         st = st.clone()
         st.ghost['yields'] = st.ghost.get('yields', 0) + 1
-        if isinstance(v, D):
-            # already bound: the incoming binding is passed on
-            eng.oblige(st, f"C17/bound@yield#{ordinal}/passes-the-binding-on", st.ghost['sigma0'].contains(Z.nid(self.n)), line=node.lineno)
-            return [st]
-        if not (isinstance(v, Obj) and v.kind == 'resultrow'):
+        if not isinstance(v, D):
             raise OutOfSubset("yield value", node)
-        eng.oblige(st, f"C17/row@yield#{ordinal}/emitted-after-all-child-rows", z3.BoolVal(bool(st.ghost.get('after_loop'))), line=node.lineno)
-        eng.oblige(st, f"C17/row@yield#{ordinal}/value-is-the-concatenation-of-all-child-values-in-order",
-                   v.data['own'] == listval(CAT(z3.Const('n_rows', Z.I))), line=node.lineno)
+        n = self.n
+        m = st.dicts[v.ref]
+        sig0 = st.ghost['sigma0']
+        if not st.ghost.get('after_loop'):
+            # already bound: the incoming binding is passed on as it is
+            eng.oblige(st, f"C17/bound@yield#{ordinal}/passes-the-binding-on",
+                       z3.And(sig0.contains(Z.nid(n)), m.extends(sig0), sig0.extends(m)), line=node.lineno)
+            return [st]
         eng.oblige(st, f"C17/row@yield#{ordinal}/exactly-one-row", z3.BoolVal(st.ghost['yields'] == 1), line=node.lineno)
-        # ... and the row binds the node to it, also when the child delivered no row at all (the value is then the empty list)
-        eng.oblige(st, f"C17/row@yield#{ordinal}/row-binds-the-node-also-for-an-empty-child-stream", st.ghost['own_key'], line=node.lineno)
+        # the row binds the node, also when the child delivered no row at all (the value is then the empty list) ...
+        eng.oblige(st, f"C17/row@yield#{ordinal}/row-binds-the-node-also-for-an-empty-child-stream", m.contains(Z.nid(n)), line=node.lineno)
+        eng.oblige(st, f"C17/row@yield#{ordinal}/value-is-the-concatenation-of-all-child-values-in-order",
+                   Z.hv_value(m.get(Z.nid(n))) == listval(CAT(z3.Const('n_rows', Z.I))), line=node.lineno)
+        # ... agrees with the incoming binding (R1) and binds nothing but it and the node (R0)
+        eng.oblige(st, f"C17/row@yield#{ordinal}/keeps-the-incoming-binding-as-it-was", m.extends(sig0), line=node.lineno)
+        k = z3.FreshConst(Z.I, 'anykey')
+        eng.oblige(st, f"C17/row@yield#{ordinal}/binds-nothing-but-the-incoming-binding-and-the-node",
+                   z3.Implies(m.contains(k), z3.Or(k == Z.nid(n), sig0.contains(k))), line=node.lineno)
+        if st.ghost['sigma_ref'] is not None:
+            eng.oblige(st, f"C17/row@yield#{ordinal}/is-a-new-row-object-not-the-incoming-one", z3.BoolVal(v.ref != st.ghost['sigma_ref']),
+                       line=node.lineno)
+            cur = st.dicts[st.ghost['sigma_ref']]
+            eng.oblige(st, f"C17/row@yield#{ordinal}/the-incoming-binding-is-not-modified", z3.And(cur.extends(sig0), sig0.extends(cur)),
+                       line=node.lineno)
         eng.oblige(st, f"cover@yield#{ordinal}", z3.BoolVal(True), kind='cover', line=node.lineno)
         return [st]
 
